@@ -11,7 +11,7 @@ man = json.load(open(os.path.join(V, "MANIFEST.json")))
 props = [c["property_id"] for c in man["checks"]]
 extra = [p[:-3].upper() for p in os.listdir(os.path.join(V, "sa/rules")) if p.startswith("c") and p[1:3].isdigit()]
 props = sorted(set(props) | set(extra))
-seeds = [a for a in sys.argv[1:] if not a.startswith("--")] or sorted(os.listdir(os.path.join(V, "seeded")))
+seeds = [a for a in sys.argv[1:] if not a.startswith("--")] or sorted(d for d in os.listdir(os.path.join(V, "seeded")) if os.path.isdir(os.path.join(V, "seeded", d)))
 
 def one(seed):
     d = tempfile.mkdtemp(prefix="verif-seed.")
